@@ -101,18 +101,19 @@ type openTxn struct {
 }
 
 type runner struct {
-	r      *rand.Rand
-	db     *sqlx.DB
-	rc     *rec.Recorder
-	p      Params
-	h      *History
-	commit map[string]map[int32]rm.Row
-	owner  map[string]map[int32]int // id -> open txn number that wrote it
-	open   []*openTxn
-	nextID int32
-	nTxn   int
-	ended  []*Txn
-	stop   bool
+	r       *rand.Rand
+	db      *sqlx.DB
+	rc      *rec.Recorder
+	p       Params
+	h       *History
+	commit  map[string]map[int32]rm.Row
+	owner   map[string]map[int32]int // id -> open txn number that wrote it
+	open    []*openTxn
+	nextID  int32
+	nTxn    int
+	ended   []*Txn
+	stop    bool
+	squeeze bool
 }
 
 func payload(r *rand.Rand, sizes []int, max int, tag string) string {
@@ -498,8 +499,27 @@ func (rn *runner) dml(i int) bool {
 		}
 		nr := old.Clone()
 		var sets []string
-		mode := r.Intn(5)
+		mode := r.Intn(6)
 		switch mode {
+		case 5: // an indexed column is assigned the value it already holds while another column changes the row's size (the row moves, its keys do not)
+			if r.Intn(2) == 0 {
+				sets = append(sets, "k = "+lit(nr[1]))
+			} else {
+				sets = append(sets, "id = "+lit(nr[0]))
+			}
+			n := len(old[2].S) - 1 - r.Intn(20)
+			if r.Intn(2) == 0 {
+				n = len(old[2].S) + 1 + r.Intn(600)
+			}
+			if n < 0 {
+				n = 0
+			}
+			nr[2] = rm.Str(payload(r, []int{n}, rn.p.MaxPayload, tag))
+			sets = append(sets, "v = "+lit(nr[2]))
+			if r.Intn(2) == 0 {
+				sets[0], sets[1] = sets[1], sets[0]
+			}
+			rn.h.Stats["stmt_update_same_key_and_size_change"]++
 		case 0: // in place, same size
 			nr[2] = rm.Str(payload(r, []int{len(old[2].S)}, rn.p.MaxPayload, tag))
 			sets = append(sets, "v = "+lit(nr[2]))
@@ -508,8 +528,12 @@ func (rn *runner) dml(i int) bool {
 			nr[2] = rm.Str(payload(r, []int{len(old[2].S) + 1 + r.Intn(600)}, rn.p.MaxPayload, tag))
 			sets = append(sets, "v = "+lit(nr[2]))
 			rn.h.Stats["stmt_update_grow"]++
-		case 2: // shrink (always relocates)
+		case 2: // shrink (always relocates): by a few bytes, or down to a fraction (frees space that others can take)
 			n := len(old[2].S) - 1 - r.Intn(20)
+			if r.Intn(2) == 0 {
+				n = r.Intn(len(old[2].S)/4 + 1)
+				rn.squeeze = true // often followed by other transactions' inserts, see run
+			}
 			if n < 0 {
 				n = 0
 			}
@@ -561,7 +585,10 @@ func (rn *runner) dml(i int) bool {
 	}
 }
 
-func (rn *runner) auto() bool {
+func (rn *runner) auto() bool { return rn.autoKind(false, -1) }
+
+// autoKind: one auto-commit statement; insertOnly forces an INSERT; size >= 0 fixes the length of the inserted string.
+func (rn *runner) autoKind(insertOnly bool, size int) bool {
 	// one auto-commit statement through the engine's own ExecuteSQLRetValues
 	r := rn.r
 	table := rn.table()
@@ -570,7 +597,7 @@ func (rn *runner) auto() bool {
 	tag := fmt.Sprintf("t%da.", t.N)
 	var sql string
 	var op Op
-	if id, ok := rn.pickID(nil, table, false); ok && r.Intn(2) == 0 {
+	if id, ok := rn.pickID(nil, table, false); ok && r.Intn(2) == 0 && !insertOnly {
 		old := rn.commit[table][id]
 		if r.Intn(3) == 0 || rn.p.NoUpdate {
 			sql = fmt.Sprintf("DELETE FROM %s WHERE id = %d;", table, id)
@@ -585,7 +612,11 @@ func (rn *runner) auto() bool {
 	} else {
 		id := rn.nextID
 		rn.nextID++
-		row := rm.Row{rm.Int(id), rm.Int(int32(r.Intn(50))), rm.Str(payload(r, rn.p.RowSizes, rn.p.MaxPayload, tag))}
+		sizes := rn.p.RowSizes
+		if size >= 0 {
+			sizes = []int{size}
+		}
+		row := rm.Row{rm.Int(id), rm.Int(int32(r.Intn(50))), rm.Str(payload(r, sizes, rn.p.MaxPayload, tag))}
 		sql, _ = sqlx.InsertSQL(table, Cols, []rm.Row{row})
 		op = Op{Table: table, Kind: "ins", ID: id, Row: row}
 	}
@@ -730,6 +761,12 @@ func (rn *runner) run() {
 	r := rn.r
 	for step := 0; step < rn.p.Steps && !rn.stop; step++ {
 		c := r.Intn(100)
+		if rn.squeeze {
+			rn.squeeze = false
+			if len(rn.open) > 0 && r.Intn(2) == 0 {
+				c = 99
+			}
+		}
 		switch {
 		case len(rn.open) == 0 && c < 15:
 			if !rn.auto() {
@@ -740,6 +777,20 @@ func (rn *runner) run() {
 			rn.db.S.ForceCheckpointingForTestcase()
 			rn.rc.Mark("CKPT-END", 0)
 			rn.h.Stats["checkpoints"]++
+		case len(rn.open) > 0 && c >= 96:
+			// other transactions commit inserts while this one is open: space that the open transaction's shrinking updates
+			// and deletes released (or still reserve) on its pages is what they compete for
+			// rows of decreasing size pack the current page to the last few bytes
+			big := rn.p.RowSizes[len(rn.p.RowSizes)-1]
+			if big > rn.p.MaxPayload {
+				big = rn.p.MaxPayload
+			}
+			for _, sz := range []int{big, big, big / 2, big / 2, big / 4, big / 4, 60, 60, 24, 24, 8, 8, 8, 8}[r.Intn(4):] {
+				if !rn.autoKind(true, sz) {
+					return
+				}
+			}
+			rn.h.Stats["insert_bursts_next_to_open_transactions"]++
 		case len(rn.open) < rn.p.MaxOpen && (len(rn.open) == 0 || c < 25):
 			rn.begin()
 		case c < 70 || (rn.p.Bias == "loser" && c < 82):
